@@ -134,7 +134,7 @@ Definition no_tables : tables :=
      t_cmd := []; t_iter := [] |}.
 
 (* what the harness saw after one step: was it accepted, and the deep observation of every slot *)
-Definition obs_step := (bool * list sval)%type.
+Definition obs_step := (bool * option (list sval))%type.   (* None: raised, and every slot observed as before *)
 
 Definition accepted (o : outcome) : bool := match o with Accepted => true | Raised _ => false end.
 
@@ -143,7 +143,9 @@ Fixpoint check_steps (F : facts) (E : env) (kw : bool) (r : record) (ops : list 
   | [], [] => true
   | o :: ops', (acc, vals) :: exp' =>
       let (r', oc) := step F E kw r o in
-      Bool.eqb acc (accepted oc) && svals_eqb (map snd r') vals && check_steps F E kw r' ops' exp'
+      Bool.eqb acc (accepted oc)
+      && svals_eqb (map snd r') (match vals with Some l => l | None => map snd r end)
+      && check_steps F E kw r' ops' exp'
   | _, _ => false
   end.
 
